@@ -328,6 +328,13 @@ Proof.
   end; apply legal_some; assumption.
 Qed.
 
+(* the hooks of the membind family all take a nodeset *)
+Lemma calls_mem_kind T a c : api_is_mem a = true -> In c (calls_of T a) -> hc_set c <> None -> hid_kind (hc_id c) = KNode.
+Proof.
+  intros Hm H Hs. destruct a; try discriminate Hm; cbn [calls_of] in H; brk H; subst c; try reflexivity;
+  exfalso; apply Hs; reflexivity.
+Qed.
+
 Definition bad_derived (T : topo) (a : apicall) : bool :=
   match api_set a with
   | Some s => api_is_mem a && negb (flag HWLOC_MEMBIND_BYNODESET (api_flags a)) && negb (bad_set T a)
@@ -566,6 +573,11 @@ Section Runs.
   Lemma run_invalid_no_binding a w c : invalid T a = true -> In c (s_trace (snd (RUN a w))) -> is_binding_call c = false.
   Proof.
     intros Hi Hc. pose proof (run_trace (fun c => is_binding_call c = false) a w (fun c => calls_invalid_no_binding T a c Hi)) as H.
+    rewrite Forall_forall in H. now apply H.
+  Qed.
+  Lemma run_mem_kind a w c : api_is_mem a = true -> In c (s_trace (snd (RUN a w))) -> hc_set c <> None -> hid_kind (hc_id c) = KNode.
+  Proof.
+    intros Hm Hc. pose proof (run_trace (fun c => hc_set c <> None -> hid_kind (hc_id c) = KNode) a w (fun c Hin => calls_mem_kind T a c Hm Hin)) as H.
     rewrite Forall_forall in H. now apply H.
   Qed.
   Lemma run_full_complete a w c x :
